@@ -17,7 +17,7 @@ class Dev:
         return False
 
 
-def make_generator(name, prog, acl_text, vendor, declines=None):
+def make_generator(name, prog, acl_text, vendor, declines=None, acl_safe_text=None):
     """declines: None, "supports" (supports_device() answers no) or "raise" (run raises NotSupportedDevice after its first yield)"""
     from annet.generators import PartialGenerator
 
@@ -69,6 +69,8 @@ def make_generator(name, prog, acl_text, vendor, declines=None):
     def acl(self, device):
         return acl_text
     attrs = {"run_" + vendor: run, "acl_" + vendor: acl, "TAGS": []}
+    if acl_safe_text is not None:
+        attrs["acl_safe_" + vendor] = lambda self, device: acl_safe_text
     if declines == "supports":
         attrs["supports_device"] = lambda self, device: False
     cls = type(name, (PartialGenerator,), attrs)
@@ -88,10 +90,10 @@ def tree_prog(t):
     return prog
 
 
-def old_new(device, gens, no_acl=False, running_text=None, add_implicit=False, no_new=False, annotate=False):
+def old_new(device, gens, no_acl=False, running_text=None, add_implicit=False, no_new=False, annotate=False, acl_safe=False):
     """annet.gen._old_new_per_device with a stub context: empty (or the given) running config, the given partial generators"""
     from annet import gen
-    args = types.SimpleNamespace(no_acl=no_acl, acl_safe=False, fail_on_empty_config=False, profile=False, no_acl_exclusive=False,
+    args = types.SimpleNamespace(no_acl=no_acl, acl_safe=acl_safe, fail_on_empty_config=False, profile=False, no_acl_exclusive=False,
                                  generators_context=None, required_packages_check=False, filter_acl="", filter_ifaces=[], filter_peers=[],
                                  filter_policies=[])
     dg = gen.DeviceGenerators()
